@@ -448,6 +448,8 @@ class Tensor:
         return Tensor(rank_ids, self.name, root=build(len(rank_ids), coo, merged))
 
     def swizzleRanks(self, rank_ids=None):
+        if sorted(rank_ids) != sorted(self.rank_ids):
+            raise RtError("swizzleRanks(%r) on %r" % (rank_ids, self.rank_ids))
         perm = [self.rank_ids.index(r) for r in rank_ids]
         if sorted(perm) != list(range(len(self.rank_ids))):
             raise RtError("swizzleRanks(%r) on %r" % (rank_ids, self.rank_ids))
